@@ -166,4 +166,24 @@ PROPS = {
             {"name": "cli", "test": "TestCLI", "checks": {Q: 160, T: 4000}, "shards": {Q: 8, T: 16}, "timeout": {Q: 400, T: 2400}},
         ],
     },
+    "C09": {
+        "pkg": "c09", "bin": True,
+        "technique": "exhaustive enumeration of the 63 level subsets per rapid-drawn value ranking + exhaustive dir matrix, against "
+                     "precedence tables, at the binary level",
+        "level_text": "Every non-empty subset of the six env levels (parent, context, env_file, task, stage, variation) defines the same "
+                      "name with values whose lexicographic order is an independent random permutation per rapid case, for direct runs "
+                      "and stages; the printed value must be the highest level's. Untouched parent variables and TASK_NAME are checked "
+                      "on every run, hooks on a quarter. Dirs: every subset of {stage, task, context} dir x start directory x run mode "
+                      "x admissible task-dir forms, pwd -P in commands, before and after.",
+        "level_note": "{{.Root}} in a task dir is used only when taskctl starts in the project root (from a sub-directory the code and the "
+                      "README disagree about Root and the property does not settle it).",
+        "rule": "env: rapid draws (permutation of six value ranks, run mode, hooks), then all subsets; dirs: full enumeration. Non-trivial = "
+                ">= 2 levels present and the winning value sorts below a losing one (env) / >= 2 dir levels given (dirs); distinct = "
+                "canonical JSON of (mask, ranks, mode).",
+        "assumptions": ["values are short ASCII words; names are valid shell identifiers"],
+        "parts": [
+            {"name": "env", "test": "TestEnv", "checks": {Q: 16, T: 320}, "shards": {Q: 8, T: 16}, "timeout": {Q: 400, T: 2400}},
+            {"name": "dirs", "test": "TestDirs", "kind": "plain", "shards": {Q: 4, T: 4}, "timeout": {Q: 300, T: 300}},
+        ],
+    },
 }
